@@ -267,7 +267,9 @@ var (
 	newComma      func(args List) Object
 	newCommaAt    func(args List) Object
 
-	decimalRegex     = regexp.MustCompile(`^[-+]?[0-9]+\.?[0-9]*$`)
+	// A token of digits only is an integer in the *read-base* or a symbol, a
+	// decimal float needs the point.
+	decimalRegex     = regexp.MustCompile(`^[-+]?[0-9]+\.[0-9]*$`)
 	eFloatRegex      = regexp.MustCompile(`^[-+]?[0-9]+\.?[0-9]*e[-+]?[0-9]+?$`)
 	shortFloatRegex  = regexp.MustCompile(`^[-+]?[0-9]+\.?[0-9]*s[-+]?[0-9]+?$`)
 	singleFloatRegex = regexp.MustCompile(`^[-+]?[0-9]+\.?[0-9]*f[-+]?[0-9]+?$`)
